@@ -33,9 +33,14 @@ def h_view(T, M):
     return Harness("arr_view_%s%d" % (T, M), [("const void *", 'owning')], body, out=("std::size_t", 2), meta={"T": T, "M": M, "kind": "view"})
 
 
-def h_alloc(T, M):
-    body = "  using B = array<verif::vd<%s, %d>>;\n  new (a1) B::owning_data_t(a0);\n" % (T, M)
-    return Harness("arr_alloc_%s%d" % (T, M), [("std::size_t", 'n'), ("void *", 'obj')], body, meta={"T": T, "M": M, "kind": "alloc"})
+def h_alloc(T, M, I=None):
+    body = "  using B = array<verif::vd<%s, %d>%s>;\n  new (a1) B::owning_data_t(a0);\n" % (T, M, ", std::%s" % I if I else "")
+    return Harness("arr_alloc_%s%d%s" % (T, M, "_" + I if I else ""), [("std::size_t", 'n'), ("void *", 'obj')], body, meta={"T": T, "M": M, "kind": "alloc"})
+
+
+def h_cfg(T, M, I):
+    body = "  using B = array<verif::vd<%s, %d>, std::%s>;\n  const B::owning_data_t & o = *static_cast<const B::owning_data_t *>(a0);\n  B::non_owning_data_t v(o);\n  out[0] = o.get_configuration()[0]; out[1] = v.m_size;\n" % (T, M, I)
+    return Harness("arr_cfg_%s%d_%s" % (T, M, I), [("const void *", 'owning')], body, out=("std::size_t", 2), meta={"T": T, "M": M, "kind": "cfg"})
 
 
 def declare(rep):
@@ -46,6 +51,8 @@ def run_array(rep, tier):
     hs = []
     for T, M in (("float", 1), ("float", 3), ("double", 2)) + ((("double", 4), ("float", 2)) if tier == "thorough" else ()):
         hs += [h_at(T, M), h_view(T, M), h_alloc(T, M)]
+    # narrow index types: the element count must still be kept (and reported) at full width
+    hs += [h_alloc("float", 1, "uint16_t"), h_alloc("double", 2, "uint32_t"), h_cfg("float", 1, "uint16_t"), h_cfg("float", 3, "uint8_t")]
     harness.build(hs, "c01arr")
     for h in hs:
         T, M, kind = h.meta["T"], h.meta["M"], h.meta["kind"]
@@ -80,6 +87,12 @@ def run_array(rep, tier):
             bb = ir.strip_casts(b, ("ptrtoint",)) if b else None
             if why is None and not (bb and ((bb[0] == 'ld' and bb[1] == ('arg', 0) and bb[2] == 8) or (bb[0] == 'ptr' and bb[1][0] == 'mem' and bb[1][1][1] == ('arg', 0) and bb[1][1][2] == 8 and bb[2] == 0))):
                 why = "view.m_ptr is %s, expected the owning object's buffer" % (ir.show(b)[:80] if b else "unset")
+        elif kind == "cfg":
+            outs = {k: ir.ungate(v) for k, v in s.outputs(h.out_index).items()}
+            for k, nm in ((0, "get_configuration()[0]"), (8, "view.m_size")):
+                a = outs.get(k)
+                if not (a and a[0] == 'ld' and a[1] == ('arg', 0) and a[2] == 0 and a[3] == 8):
+                    why = "%s is %s, expected the full 64-bit element count of the owning object" % (nm, ir.show(a)[:80] if a else "unset")
         else:
             news = [c for c in s.calls if c.name == "_Znam"]
             st = {x.off: x.val for x in s.stores if x.base == ('arg', 1) and isinstance(x.off, int)}
@@ -99,7 +112,7 @@ def run_array(rep, tier):
                 if cnt != ('arg', 0):
                     why = "allocates %s bytes, expected n*%d" % (ir.show(a)[:100], stride)
                 elif ir.ungate(st.get(0, ('undef',))) != ('arg', 0):
-                    why = "m_size is %s, expected n" % ir.show(st.get(0))[:60]
+                    why = "m_size is %s, expected n (kept at 64 bits)" % ir.show(st.get(0))[:60]
         if why:
             rep.fail("C01.d", inst, FILE, why)
         else:
